@@ -115,6 +115,7 @@ def _model_eval(m):
         return default
 
     ev.table = table
+    ev.model = m  # the z3 model itself (function interpretations), for concretize functions that need more than constants
     return ev
 
 
